@@ -834,7 +834,7 @@ META = {
              'paired, mate mapped, divideMultimapping, XA, NH) including "divide the computed weight by the hit count"; every increment reaching the '
              'table is that weight (or the tag value under byValue); sample and feature come from the same read. Does NOT decide equality with an '
              'independent recomputation over BAM files.'),
-    'technique': 'static analysis: option-coverage set comparison, dominator check of None-able attributes, exhaustive truth-table enumeration of filter predicates and of the abstractly interpreted weight computation; small-scope abstract execution of assignReads on a model read for every combination of binning / by-value / pairing / mate selection / multimapping / joined or single features (rule R9, and wherever the structural weight rule cannot follow)',
+    'technique': 'static analysis: option-coverage set comparison, dominator check of None-able attributes, exhaustive truth-table enumeration of filter predicates and of the abstractly interpreted weight computation; small-scope abstract execution of assignReads on a model read for every combination of binning / by-value / pairing / mate selection / multimapping / joined or single features (rule R9, and wherever the structural weight rule cannot follow); the read filter run on an unsorted blacklist where the scan lives in a helper',
     'design_ref': 'DESIGN.md section 5, C11',
 }
 
